@@ -763,6 +763,10 @@ class World:
             self.ns[n] = ns
         for n, ns in self.ns.items():
             for k, v in list(ns.items()):
+                if isinstance(v, types.ModuleType) and v.__name__ in self.ns:
+                    # `from dask_array import _chunk as chunk` at module level: attribute access must reach the clones
+                    ns[k] = _ModView(self, v.__name__)
+                    continue
                 c = self._clone(v)
                 if c is not v:
                     ns[k] = c
